@@ -21,6 +21,10 @@ RULE = ("histories: adaptive random walks on the real ClientSession (2-6 GET/HEA
         "peer close/reset at any point; delivery cut whole / at head end / at body end / random / single byte, so surplus "
         "and unsolicited bytes fall before release, between release and re-acquisition, and after; caller ops read / "
         "release / close / cancel; virtual time steps across the keep-alive and total timeouts; connector force_close. "
+        "Closing window: ops F (the transport starts closing: peer FIN read) and H (the transport holds connection_lost "
+        "back after transport.close()) separate 'transport closing' from 'connection_lost delivered' (op X); drawn in "
+        "the walks and scripted for FIN-while-idle, garbage-while-idle, FIN/garbage while a request waits, each followed "
+        "by a same-key request before X; every connector.connect() result is logged with the closing state of its transport. "
         "Interim responses: 100/102/103, one to three in a row, in the same read as the final response or in earlier reads "
         "with other ops in between. "
         "Connection-key classes: (a) random walks over 3 keys that vary host, port incl. explicit default, scheme, ssl= "
@@ -44,12 +48,13 @@ TRUSTED_BASE = [
 ]
 ASSUMPTIONS = [
     "responses carry no Content-Encoding and bodies stay far below the read buffer limit (decompression and back-pressure pauses are C09/C08)",
-    "redirects are not followed (allow_redirects=False); request bodies only in the oracle-only Expect: 100-continue class (POST, 10-byte body; early final response without 100, 100 then final, 103+100+final, final with Connection: close; each in one read and unit by unit; then a same-key request): the transport notes when a request head follows a request whose announced body was not written - the Lean model has no request bodies; websocket payload parser not modelled (an upgraded connection only has to be never reused)",
+    "redirects are not followed (allow_redirects=False); request bodies only in the oracle-only Expect: 100-continue class (POST, 10-byte body as bytes / async generator / unseekable stream - the latter two of unknown size, sent chunked; early final response without 100, 100 then final, 103+100+final, final with Connection: close; each in one read and unit by unit; then a same-key request): the transport notes when a request head follows a request whose announced body was not written - the Lean model has no request bodies; websocket payload parser not modelled (an upgraded connection only has to be never reused)",
 ]
 
 THEOREMS = [
     "Aio.C06.release_dirty_closes",
     "Aio.C06.closed_never_acquired",
+    "Aio.C06.closing_never_acquired",
     "Aio.C06.tryAcquire_same_key",
     "Aio.C06.getLoop_same_key",
     "Aio.C06.acquired_clean_fixed",
@@ -126,6 +131,7 @@ def keyparams(spec, j, variant=0):
         kw["_ws"] = True
     if variant & 8:
         kw["_post"] = 10
+        kw["_body"] = "agen" if variant & 16 else "stream" if variant & 32 else "bytes"
     return url, kw
 
 
@@ -289,6 +295,14 @@ def gen_walk(rng, cfg, keyset, max_req, max_ops=48):
                 peer.answered[c] = len(tr.reqs)
                 peer.respond(c, R.meta[tr.reqs[-1]]["skip"])
         live = [tr.idx for tr in trs if not tr.closing and not tr.closed]
+        for tr in trs:
+            if tr.closing and not tr.closed:      # closing, connection_lost still to be delivered
+                cands += [("X", tr.idx, rng.random() < 0.3)] * 3
+        for c in live:
+            if rng.random() < 0.06:
+                cands += [("F", c)] * 2
+            if rng.random() < 0.03 and not trs[c].hold:
+                cands += [("H", c)] * 2
         for c in live:
             if peer.pending.get(c):
                 cands += [("deliver", c)] * 6
@@ -508,10 +522,18 @@ def oracle(ctx, R, units, case):
             for un in units.get(c, []):
                 if un["kind"] == "101" and un["start"] + un["head"] <= e and un["start"] >= req_off.get((c, holder), 1 << 60):
                     dirty.setdefault(c, "upgraded")
+        elif k == "acquire":
+            _, c, j, opi, closing = ev
+            if closing:
+                viol.append(("C06/dirty-reuse/handed-out-while-transport-closing",
+                             f"the connector handed connection {c} to request {j} although its transport was already closing "
+                             f"({dirty.get(c, 'closed')}; connection_lost not delivered yet)"))
         elif k == "shortbody":
             _, c, pj, seen, expected, j, opi = ev
             viol.append(("C06/dirty-reuse/request-body-" + ("never-sent" if seen == 0 else "cut-short"),
-                         f"request {j} written on connection {c} although only {seen} of the {expected} body bytes announced by request {pj} were sent on it"))
+                         f"request {j} written on connection {c} although only {seen} of the "
+                         + (f"{expected} body bytes" if expected >= 0 else "chunked body (no last-chunk)")
+                         + f" announced by request {pj} were sent on it"))
         elif k == "peerclose":
             dirty.setdefault(ev[1], "peer-closed")
         elif k in ("cancel", "close"):
@@ -712,6 +734,50 @@ def pair_walk(k1, k2, third, stop_after_second_request=False):
     return next_op, peer
 
 
+def scripted_walk(steps):
+    """steps refer to requests by number; the connection is looked up when the step runs:
+    ("Q",) | ("resp", j) | ("D", j) | ("F", j) | ("H", j) | ("X", j, os) | ("garbage", j) | ("A", d)
+    where F/H/X/garbage act on the connection request j was written on"""
+    K = "1.80.0.0.0.0.0"
+    peer = Peer(random.Random(0))
+    it = iter(steps)
+
+    def next_op(R):
+        for st in it:
+            if st[0] == "Q":
+                return ("Q", K, False, b"")
+            if st[0] in ("D", "A"):
+                return st
+            c = R.used[st[1]][-1] if st[1] < len(R.used) and R.used[st[1]] else None
+            if c is None:
+                continue
+            if st[0] == "resp" or st[0] == "garbage":
+                n = peer.add(c, "cl" if st[0] == "resp" else "garbage", 4)
+                data = bytes(peer.pending[c][:n]); del peer.pending[c][:n]
+                return ("R", c, data)
+            if st[0] == "X":
+                return ("X", c, st[2])
+            return (st[0], c)
+        return None
+    return next_op, peer
+
+
+CLOSING_WINDOW = [
+    # FIN read on an idle pooled connection, next request before connection_lost
+    [("Q",), ("resp", 0), ("D", 0), ("F", 0), ("Q",), ("resp", 1), ("D", 1), ("X", 0, False), ("Q",), ("resp", 2), ("D", 2)],
+    # … connection_lost with an error afterwards
+    [("Q",), ("resp", 0), ("D", 0), ("F", 0), ("A", 1), ("Q",), ("X", 0, True), ("resp", 1), ("D", 1)],
+    # garbage on an idle pooled connection: the protocol closes the transport, connection_lost held back
+    [("Q",), ("resp", 0), ("D", 0), ("H", 0), ("garbage", 0), ("Q",), ("resp", 1), ("D", 1), ("X", 0, False)],
+    # garbage while a request waits, transport closing, then another request, then connection_lost
+    [("Q",), ("H", 0), ("garbage", 0), ("Q",), ("X", 0, False), ("resp", 1), ("D", 1)],
+    # FIN while a request waits for its head; a second request meanwhile; then connection_lost (retry of request 0)
+    [("Q",), ("F", 0), ("Q",), ("X", 0, False), ("resp", 0), ("resp", 1), ("D", 0), ("D", 1)],
+    # response complete, released by the caller while the transport is held closing
+    [("Q",), ("H", 0), ("resp", 0), ("D", 0), ("F", 0), ("Q",), ("A", 1), ("X", 0, True), ("resp", 1), ("D", 1)],
+]
+
+
 def expect_walk(script, split):
     """POST with a 10-byte body and Expect: 100-continue; the peer answers with the scripted units
     (it has seen only the request head when it starts); the caller reads the response; then a GET with
@@ -900,17 +966,29 @@ def check(ctx):
                 recs.append((case, R.states, R.ops, viol)); lines.append(model_line(pcfg, R.ops))
                 del R
     flush()
+    # transport closing but connection_lost not yet delivered, at the moment of the next acquire
+    for steps in CLOSING_WINDOW:
+        next_op, peer = scripted_walk(steps)
+        R = M.run_scenario(pcfg, next_op, lambda spec, j: keyparams(spec, j, 0))
+        units = {c: list(us) for c, us in peer.units.items()}
+        case, viol = evaluate(ctx, R, units, {}, pcfg, "closing-window")
+        ctx.hit("closing-window")
+        recs.append((case, R.states, R.ops, viol)); lines.append(model_line(pcfg, R.ops))
+        del R
+    flush()
     # request bodies with Expect: 100-continue (oracle only: the model has no request bodies):
     # early final response without 100 / 100 then final / interim 103 then 100 then final; then a same-key request
     for script in (["final"], ["100", "final"], ["103", "100", "final"], ["final-close"]):
         for split in (False, True):
-            next_op, peer = expect_walk(script, split)
-            variants = {0: 8, 1: 0}
-            R = M.run_scenario(pcfg, next_op, lambda spec, j: keyparams(spec, j, variants.get(j, 0)))
-            units = {c: list(us) for c, us in peer.units.items()}
-            evaluate(ctx, R, units, variants, pcfg, "expect100")
-            ctx.hit("expect100:" + "+".join(script))
-            del R
+            # body kinds: bytes (known size), async generator and unseekable stream (size unknown, sent chunked)
+            for body in (8, 8 | 16, 8 | 32):
+                next_op, peer = expect_walk(script, split)
+                variants = {0: body, 1: 0}
+                R = M.run_scenario(pcfg, next_op, lambda spec, j: keyparams(spec, j, variants.get(j, 0)))
+                units = {c: list(us) for c, us in peer.units.items()}
+                evaluate(ctx, R, units, variants, pcfg, "expect100")
+                ctx.hit("expect100:" + "+".join(script) + ":" + {8: "bytes", 24: "agen", 40: "stream"}[body])
+                del R
     for n, (cfg, seed, keyset, max_req, vs) in enumerate(jobs):
         if ctx.time_left() is not None and ctx.time_left() < 20:
             ctx.notes.append(f"time budget: stopped after {n} of {len(jobs)} histories")
